@@ -10,7 +10,8 @@
     packet set.  Multi-port 'neq' entries are excluded by [splittable_ok] (C19 owns them). *)
 From V Require Import base.Prelude spec.AceSem spec.AclSem model.Cfg model.Addr model.Ports model.Ace model.Shading
   model.SplitPorts model.Platform proofs.DeleteShadowProofs proofs.SplitProofs proofs.PlatformProofs
-  model.Names model.AceText model.AclText proofs.SplitterProofs proofs.AddrObjProofs proofs.ConvProofs.
+  model.Names model.AceText model.AclText proofs.SplitterProofs proofs.AddrObjProofs proofs.ConvProofs proofs.ConvSplitProofs proofs.ClassCheck.
+From V Require Import model.Wildcard.
 Local Open Scope N_scope.
 
 (** an accepted certificate: same decision for every packet, in the same order (first match) *)
@@ -48,18 +49,22 @@ Proof. exact retype_ace_den. Qed.
 
 
 (** ** one ACE, for every reader-built extended ACE (no certificate)
-    An extended, group-free ACE whose addresses the SOURCE platform's reader built from native
-    spellings (not N1) and whose port expressions are valid on the TARGET platform as well (what
-    [Acl.platform] arranges by ungrouping first, C19), with a protocol number up to 255 and
-    well-formed option tokens, is converted by the ACE platform setter (re-type the addresses,
-    render for the target, parse on the target) into an ACE with the SAME action that matches
-    exactly the SAME packets - for every such ACE, both directions, every version, switch setting
-    and wildcard limit.  The conversion cannot fail on it. *)
-Theorem C02_ace_conversion : forall c pl', (plat c = Ios \/ plat c = Nxos) -> (pl' = Ios \/ pl' = Nxos) ->
-  forall permit n sq ssp dsp s d toks1 toks2 p1 p2 opts flags logs,
+    [addr_src mem pl limit a]: the address was built by the SOURCE platform's reader from a
+    native spelling (any / host / prefix / wildcard, every 32-bit value, not the finding N1), or
+    is an address-group reference with a valid name - with attached members when [mem = true].
+    An extended ACE with such addresses, port expressions that are valid on the TARGET platform
+    as well (what [Acl.platform] arranges by ungrouping first, C19), a protocol number up to 255
+    and well-formed option tokens is converted by the ACE platform setter (re-type the
+    addresses, render for the target, parse on the target, re-attach the members) into an ACE with
+    the SAME action that matches exactly the SAME packets - for every such ACE, both directions,
+    every version, switch setting and wildcard limit.  The conversion cannot fail on it.
+    [C02_ace_conversion_shape] gives the result explicitly: every field kept, the addresses
+    re-typed ([conv_addr]: members kept), again in the class, same address sets. *)
+Theorem C02_ace_conversion : forall mem c pl', (plat c = Ios \/ plat c = Nxos) -> (pl' = Ios \/ pl' = Nxos) ->
+  forall permit n sq s d toks1 toks2 p1 p2 opts flags logs,
   n <= 255 ->
-  sp_bounds ssp /\ ~ is_n1 (plat c) ssp /\ addr_of_spelling (plat c) (Z.of_nat (max_ncwb c)) ssp = Ok s ->
-  sp_bounds dsp /\ ~ is_n1 (plat c) dsp /\ addr_of_spelling (plat c) (Z.of_nat (max_ncwb c)) dsp = Ok d ->
+  addr_src mem (plat c) (Z.of_nat (max_ncwb c)) s ->
+  addr_src mem (plat c) (Z.of_nat (max_ncwb c)) d ->
   parse_port pl' (proto_ctx pl' (is15 c) n) toks1 = Ok p1 /\ (proto_ctx pl' (is15 c) n = None -> p1 = empty_port) ->
   parse_port pl' (proto_ctx pl' (is15 c) n) toks2 = Ok p2 /\ (proto_ctx pl' (is15 c) n = None -> p2 = empty_port) ->
   Forall token opts /\ Forall af opts /\ parse_option opts = Ok (flags, logs)
@@ -71,19 +76,68 @@ Theorem C02_ace_conversion : forall c pl', (plat c = Ios \/ plat c = Nxos) -> (p
             /\ forall k, denb (t_ace r) k = denb (t_ace t) k.
 Proof. exact ace_conversion. Qed.
 
+Theorem C02_ace_conversion_shape : forall mem c pl', (plat c = Ios \/ plat c = Nxos) -> (pl' = Ios \/ pl' = Nxos) ->
+  forall permit n sq s d toks1 toks2 p1 p2 opts flags logs,
+  n <= 255 ->
+  addr_src mem (plat c) (Z.of_nat (max_ncwb c)) s ->
+  addr_src mem (plat c) (Z.of_nat (max_ncwb c)) d ->
+  parse_port pl' (proto_ctx pl' (is15 c) n) toks1 = Ok p1 /\ (proto_ctx pl' (is15 c) n = None -> p1 = empty_port) ->
+  parse_port pl' (proto_ctx pl' (is15 c) n) toks2 = Ok p2 /\ (proto_ctx pl' (is15 c) n = None -> p2 = empty_port) ->
+  Forall token opts /\ Forall af opts /\ parse_option opts = Ok (flags, logs)
+  /\ split_dstport_option (render_port (port_nr c) (proto_ctx pl' (is15 c) n) p2 ++ opts)
+     = (render_port (port_nr c) (proto_ctx pl' (is15 c) n) p2, opts) ->
+  ace_set_platform (mkCfg pl' (is15 c) (port_nr c) (protocol_nr c) (max_ncwb c))
+                   (mkTace true sq (mkAce permit n s d p1 p2 flags logs) opts)
+  = Ok (mkTace true sq (mkAce permit n (conv_addr pl' s) (conv_addr pl' d) p1 p2 flags logs) opts)
+  /\ addr_src mem pl' (Z.of_nat (max_ncwb c)) (conv_addr pl' s) /\ addr_src mem pl' (Z.of_nat (max_ncwb c)) (conv_addr pl' d)
+  /\ sets_of (conv_addr pl' s) = sets_of s /\ sets_of (conv_addr pl' d) = sets_of d.
+Proof. exact ace_conversion_shape. Qed.
 
 (** ** the flat list: Acl.platform on reader-built entries (no certificate)
     A list of remarks and reader-built extended ACEs ([reader_built]: the hypotheses of
-    [C02_ace_conversion]) that the port-ungrouping step leaves alone (towards NX-OS: single-port
-    eq/neq, ranges, lt/gt; multi-port eq lists are C19's theorem, composed per ACL by the
-    certificate) is converted by the model of Acl.platform WITHOUT failure into a list of the
-    same length with the same first-match decision for every packet. *)
-Theorem C02_acl_conversion : forall c pl', (plat c = Ios \/ plat c = Nxos) -> (pl' = Ios \/ pl' = Nxos) ->
-  forall items, Forall (item_built c pl') items -> (pl' = Nxos -> Forall (item_unsplit c) items) ->
+    [C02_ace_conversion]) that the port-ungrouping step leaves alone is converted by the model of
+    Acl.platform WITHOUT failure into a list of the same length with the same first-match
+    decision for every packet. *)
+Theorem C02_acl_conversion : forall mem c pl', (plat c = Ios \/ plat c = Nxos) -> (pl' = Ios \/ pl' = Nxos) ->
+  forall items, Forall (item_built mem c pl') items -> (pl' = Nxos -> Forall (item_unsplit c) items) ->
   exists conv, acl_set_platform c (mkCfg pl' (is15 c) (port_nr c) (protocol_nr c) (max_ncwb c)) items = Ok conv
                /\ length conv = length items
                /\ forall k, decide denb a_permit (map sem_item conv) k = decide denb a_permit (map sem_item items) k.
 Proof. exact acl_conversion. Qed.
+
+(** ** ... including the port split towards NX-OS (no certificate)
+    [item_src mem c]: remarks (blank-joined tokens) and extended ACEs built by the readers of the
+    SOURCE platform - addresses as above (group references with members when [mem = true]);
+    ports from the port reader, any expression except neq with several operands, which is the
+    known finding N5 of C19 ([port_cls]: eq lists of any length, ranges, lt, gt, neq X); protocol <= 255; well-formed option tokens that start no address, are accepted by the
+    option reader and do not begin with a port operand or operator.  For EVERY such list, both
+    directions, the model of Acl.platform - ungroup the ports under the old platform, re-type /
+    render / re-parse every entry on the target - succeeds, and the resulting list gives every
+    packet the decision of the original list. *)
+Theorem C02_acl_conversion_split : forall mem c pl', (plat c = Ios \/ plat c = Nxos) -> (pl' = Ios \/ pl' = Nxos) ->
+  forall items, Forall (item_src mem c) items ->
+  exists conv, acl_set_platform c (mkCfg pl' (is15 c) (port_nr c) (protocol_nr c) (max_ncwb c)) items = Ok conv
+               /\ forall k, decide denb a_permit (map sem_item conv) k = decide denb a_permit (map sem_item items) k.
+Proof. exact acl_conversion_split. Qed.
+
+(** the class is closed: the converted list is again a list of reader-built entries (of the target
+    platform), so conversions can be chained without end - there and back and there again *)
+Theorem C02_acl_conversion_closed : forall mem c pl', (plat c = Ios \/ plat c = Nxos) -> (pl' = Ios \/ pl' = Nxos) ->
+  forall items, Forall (item_src mem c) items ->
+  exists conv, acl_set_platform c (mkCfg pl' (is15 c) (port_nr c) (protocol_nr c) (max_ncwb c)) items = Ok conv
+               /\ Forall (item_src mem (mkCfg pl' (is15 c) (port_nr c) (protocol_nr c) (max_ncwb c))) conv
+               /\ forall k, decide denb a_permit (map sem_item conv) k = decide denb a_permit (map sem_item items) k.
+Proof. exact acl_conversion_closed. Qed.
+
+
+(** the checked form: [item_srcb] is a sound boolean checker of the class (without members); the
+    check counts with it how many of the explored conversions the theorem covers
+    ([run.RunPlatform.acl_in_class]) *)
+Theorem C02_conversion_checked : forall c pl' items,
+  plat_okb (plat c) = true -> plat_okb pl' = true -> forallb (item_srcb c) items = true ->
+  exists conv, acl_set_platform c (mkCfg pl' (is15 c) (port_nr c) (protocol_nr c) (max_ncwb c)) items = Ok conv
+               /\ forall k, decide denb a_permit (map sem_item conv) k = decide denb a_permit (map sem_item items) k.
+Proof. exact conversion_checked. Qed.
 
 (** non-vacuity: an IOS list with a remark and a two-port 'eq' entry converts to NX-OS as adjacent
     single-port entries; the certificate accepts it and there-back-there is a fixed point *)
@@ -96,49 +150,39 @@ Example C02_nonvacuous :
             VS "permit tcp any host 10.0.0.1 eq 443 log"; VS "deny ip any any"]; VB true; VB true].
 Proof. vm_compute. reflexivity. Qed.
 
-(** the hypotheses of [C02_ace_conversion] are met by "permit tcp host 10.0.0.1 eq 80 10.0.0.0/24
-    range 1 5 log" read on IOS and converted to NX-OS (the prefix spelling changes) *)
-Ltac tok := split; [vm_compute; reflexivity|vm_compute; discriminate].
-Ltac toks := repeat (first [apply Forall_nil | apply Forall_cons; [tok|]]).
-Ltac afs := repeat (first [apply Forall_nil | apply Forall_cons; [vm_compute; reflexivity|]]).
-Definition c02_s : addr := Eval vm_compute in match addr_of_spelling Ios 16 (SHost 167772161) with Ok a => a | _ => AGroup "" [] end.
-Definition c02_d : addr := Eval vm_compute in match addr_of_spelling Ios 16 (SWild 167772160 255) with Ok a => a | _ => AGroup "" [] end.
-Definition c02_p1 : port := Eval vm_compute in match parse_port Nxos (proto_ctx Nxos false 6) ["eq"; "80"] with Ok p => p | _ => empty_port end.
-Definition c02_p2 : port := Eval vm_compute in match parse_port Nxos (proto_ctx Nxos false 6) ["range"; "1"; "5"] with Ok p => p | _ => empty_port end.
-Example C02_ace_conversion_nonvacuous :
-  exists r, ace_set_platform (mkCfg Nxos false false false 16%nat)
-              (mkTace true 10 (mkAce true 6 c02_s c02_d c02_p1 c02_p2 [] ["log"]) ["log"]) = Ok r
-            /\ render_ace (mkCfg Nxos false false false 16%nat) r = "10 permit tcp host 10.0.0.1 eq www 10.0.0.0/24 range 1 5 log".
-Proof.
-  destruct (C02_ace_conversion (mkCfg Ios false false false 16%nat) Nxos (or_introl eq_refl) (or_intror eq_refl)
-              true 6 10 (SHost 167772161) (SWild 167772160 255) c02_s c02_d ["eq"; "80"] ["range"; "1"; "5"] c02_p1 c02_p2 ["log"] [] ["log"])
-    as (r & Hr & _).
-  - vm_compute. discriminate.
-  - split; [vm_compute; reflexivity|]. split; [intros [_ [x Hx]]; discriminate|vm_compute; reflexivity].
-  - split; [split; vm_compute; reflexivity|]. split; [intros [_ [x Hx]]; discriminate|vm_compute; reflexivity].
-  - split; [vm_compute; reflexivity|discriminate].
-  - split; [vm_compute; reflexivity|discriminate].
-  - split; [toks|]. split; [afs|]. split; vm_compute; reflexivity.
-  - exists r. split; [exact Hr|]. vm_compute in Hr. injection Hr as <-. vm_compute. reflexivity.
-Qed.
-
-
 Theorem C02_sem_item_is_to_item : sem_item = to_item.
 Proof. reflexivity. Qed.
 
-Example C02_acl_conversion_nonvacuous :
-  let items := [AIRemark 5 "x"; AIAce (mkTace true 10 (mkAce true 6 c02_s c02_d c02_p1 c02_p2 [] ["log"]) ["log"])] in
-  Forall (item_built (mkCfg Ios false false false 16%nat) Nxos) items
-  /\ Forall (item_unsplit (mkCfg Ios false false false 16%nat)) items.
+(** the hypotheses of [C02_acl_conversion_split] are met (with [mem = true]) by a list with a
+    remark and an entry from an address group WITH MEMBERS, source port 'range 20 22', to a host with a
+    two-port 'eq'; it is split on
+    the way to NX-OS, the members stay attached *)
+Ltac tok := split; [vm_compute; reflexivity|vm_compute; discriminate].
+Ltac toks := repeat (first [apply Forall_nil | apply Forall_cons; [tok|]]).
+Ltac afs := repeat (first [apply Forall_nil | apply Forall_cons; [vm_compute; reflexivity|]]).
+Definition c02_host : addr := Eval vm_compute in match addr_of_spelling Ios 16 (SHost 167772161) with Ok a => a | _ => AGroup "" [] end.
+Definition c02_member : option wild := Eval vm_compute in match new_wild 16 167772160 255 with Ok w => Some w | _ => None end.
+Definition c02_grp : addr := AGroup "SERVERS" [c02_member].
+Definition c02_q1 : port := Eval vm_compute in match parse_port Ios (proto_ctx Ios false 6) ["range"; "20"; "22"] with Ok p => p | _ => empty_port end.
+Definition c02_q2 : port := Eval vm_compute in match parse_port Ios (proto_ctx Ios false 6) ["eq"; "www"; "443"] with Ok p => p | _ => empty_port end.
+Definition c02_items : list aitem :=
+  [AIRemark 0 "x"; AIAce (mkTace true 0 (mkAce true 6 c02_grp c02_host c02_q1 c02_q2 [] ["log"]) ["log"])].
+Example C02_acl_conversion_split_nonvacuous :
+  Forall (item_src true (mkCfg Ios false false false 16%nat)) c02_items
+  /\ match acl_set_platform (mkCfg Ios false false false 16%nat) (mkCfg Nxos false false false 16%nat) c02_items with
+     | Ok conv => (map (render_item (mkCfg Nxos false false false 16%nat)) conv,
+                   map (fun i => match i with AIAce t => a_src (t_ace t) | _ => AGroup "" [] end) conv)
+     | _ => ([], [])
+     end = (["remark x"; "permit tcp addrgroup SERVERS range ftp-data 22 host 10.0.0.1 eq www log"; "permit tcp addrgroup SERVERS range ftp-data 22 host 10.0.0.1 eq 443 log"],
+            [AGroup "" []; c02_grp; c02_grp]).
 Proof.
-  split.
-  - apply Forall_cons; [exact I|]. apply Forall_cons; [|apply Forall_nil].
-    exists true, 6, 10, (SHost 167772161), (SWild 167772160 255), c02_s, c02_d, ["eq"; "80"], ["range"; "1"; "5"], c02_p1, c02_p2, ["log"], [], ["log"].
-    split; [reflexivity|]. split; [vm_compute; discriminate|].
-    split; [split; [vm_compute; reflexivity|]; split; [intros [_ [x Hx]]; discriminate|vm_compute; reflexivity]|].
-    split; [split; [split; vm_compute; reflexivity|]; split; [intros [_ [x Hx]]; discriminate|vm_compute; reflexivity]|].
-    split; [split; [vm_compute; reflexivity|discriminate]|].
-    split; [split; [vm_compute; reflexivity|discriminate]|].
-    split; [toks|]. split; [afs|]. split; vm_compute; reflexivity.
-  - apply Forall_cons; [exact I|]. apply Forall_cons; [|apply Forall_nil]. exists true. vm_compute. reflexivity.
+  split; [|vm_compute; reflexivity].
+  apply Forall_cons; [exists ["x"]; split; [discriminate|]; split; [toks|reflexivity]|]. apply Forall_cons; [|apply Forall_nil].
+  exists true, 6, 0, c02_grp, c02_host, ["range"; "20"; "22"], ["eq"; "www"; "443"], c02_q1, c02_q2, ["log"], [], ["log"].
+  split; [reflexivity|]. split; [vm_compute; discriminate|].
+  split; [right; exists "SERVERS", [c02_member]; split; [reflexivity|]; split; [vm_compute; reflexivity|]; split; [vm_compute; reflexivity|discriminate]|].
+  split; [left; exists (SHost 167772161); split; [vm_compute; reflexivity|]; split; [intros [_ [x Hx]]; discriminate|vm_compute; reflexivity]|].
+  split; [split; [vm_compute; reflexivity|]; split; [discriminate|left; intros H; vm_compute in H; discriminate H]|].
+  split; [split; [vm_compute; reflexivity|]; split; [discriminate|left; intros H; vm_compute in H; discriminate H]|].
+  split; [toks|]. split; [afs|]. split; [vm_compute; reflexivity|]. split; vm_compute; reflexivity.
 Qed.
